@@ -396,7 +396,35 @@ def r8_bracket_closes_last(ctx):
     ctx.floor('bracket-closing paths of the entry points', n, 4)
 
 
+def r9_installed_stack(ctx):
+    """which stack a module gets: exactly what `Module::stack(simulation-wide stack)` returns — the module decides whether it puts elements
+    below, on top or instead — and the simulation-wide stack comes from the configured provider at every site that builds a module"""
+    ctx.set_rule('C14.R9')
+    P = ctx.P
+    f = ctx.anchor('des::net::module::ModuleExt::to_processing_chain')
+    if not f:
+        return
+    rts = [peel(t) for _, t in ret_trees(f)]
+    ok = bool(rts)
+    for t in rts:
+        good = False
+        if t[0] == 'call' and str(t[1]).endswith('Processor::new') and t[2]:
+            st = peel(t[2][0])
+            good = st[0] == 'call' and str(st[1]).endswith('Module::stack') and len(st[2]) == 2 and peel(st[2][1])[0] == 'arg' and peel(st[2][1])[1] == 2
+        ok = ok and good
+    ctx.check(ok, 'chain-is-module-stack', "a module's processing chain is exactly Module::stack(simulation-wide stack)", f.where(), [show(t)[:160] for t in rts][:2])
+    sites = P.call_sites_of(f.key)
+    if ctx.floor('sites building a processing chain', len(sites), 3):
+        for s_ in sites:
+            g = s_.fn
+            a = peel(g.expr_operand(s_.args[1], s_.b, 'T'))
+            provided = a[0] == 'arg' or (a[0] == 'call' and str(a[1]).split('::')[-1] in ('call_mut', 'call', 'call_once'))
+            ctx.check(provided, 'stack-from-provider:%s' % (g.root or g.key).split('::')[-1].strip('>'),
+                      'every module is built with the simulation-wide stack (handed in, or drawn from the configured provider)', s_.where(), show(a)[:120])
+
+
 def run(ctx):
+    r9_installed_stack(ctx)
     r8_bracket_closes_last(ctx)
     r7_stack_order(ctx)
     r1_pairing(ctx)
